@@ -185,6 +185,24 @@ let spec_q (s : str) (a : nat) (bb : nat) (obs : string) : verdict =
   else if knownClass_span fx p m q then Known "Kspan"
   else Bad "err does not show line number / line text / marker column / continued line (Pos.Spec.span_shows)"
 
+(* T: start offsets in pre-order = the numbers before each '-' of the tree text *)
+let tree_starts (spec : string) : int list =
+  let n = String.length spec in
+  let rec go i cur acc =
+    if i >= n then List.rev acc else
+    match spec.[i] with
+    | '0'..'9' as c -> go (i + 1) (match cur with None -> Some (Char.code c - 48) | Some x -> Some (x * 10 + Char.code c - 48)) acc
+    | '-' -> go (i + 1) None (match cur with Some x -> x :: acc | None -> acc)
+    | _ -> go (i + 1) None acc in
+  go 0 None []
+let lc_list (f : nat -> string) (starts : int list) : string =
+  String.concat "|" (List.map (fun x -> Printf.sprintf "%d@%s" x (f (nat_of_int x))) starts)
+let model_t (s : str) (spec : string) : string = lc_list (fun a -> res_str lc (pair_line_col s a)) (tree_starts spec)
+let spec_lc_list (s : str) (starts : int list) (obs : string) : verdict =
+  let e = lc_list (fun a -> lc (spec_line_col (before s a))) starts in
+  if e = obs then Good else Bad e
+let model_u (s : str) a c b : string = lc_list (fun x -> res_str lc (pair_line_col_upto s b x)) [n2i a; n2i c]
+
 let spec_m a b c d (obs : string) : verdict =
   let a = n2i a and b = n2i b and c = n2i c and d = n2i d in
   let e = if b >= c && a <= d then Printf.sprintf "%d-%d" (Stdlib.min a c) (Stdlib.max b d) else "none" in
@@ -211,6 +229,9 @@ let () =
         | 'Q' -> (match parts 4 with [_; a; b; e] -> let s = to_str (unesc e) in model_q s (num a) (num b), spec_q s (num a) (num b) impl | _ -> "BADCASE", Good)
         | 'M' -> (match parts 6 with [_; a; b; c; d; e] -> let s = to_str (unesc e) in
                     model_m s (num a) (num b) (num c) (num d), spec_m (num a) (num b) (num c) (num d) impl | _ -> "BADCASE", Good)
+        | 'T' -> (match parts 3 with [_; t; e] -> let s = to_str (unesc e) in model_t s t, spec_lc_list s (tree_starts t) impl | _ -> "BADCASE", Good)
+        | 'U' -> (match parts 6 with [_; a; c; d; b; e] -> let s = to_str (unesc e) in
+                    model_u s (num a) (num c) (num b), spec_lc_list s [int_of_string a; int_of_string c] impl | _ -> "BADCASE", Good)
         | _ -> "BADCASE", Good
         with Failure _ -> "BADCASE", Good) in
       (match verdict with
